@@ -27,35 +27,64 @@ import (
 
 type parallelGateway struct {
 	*wiring
-	element               *schema.ParallelGateway
-	mch                   chan imessage
-	reportedIncomingFlows int
-	once                  sync.Once
-	awaitingActions       []chan IAction
-	noOfIncomingFlows     int
+	element *schema.ParallelGateway
+	mch     chan imessage
+	once    sync.Once
+	// incomingIds are the ids of the incoming sequence flows; parked holds,
+	// per incoming sequence flow, the tokens waiting at the gateway in order
+	// of arrival
+	incomingIds []string
+	parked      map[string][]chan IAction
 }
 
 func newParallelGateway(wr *wiring, element *schema.ParallelGateway) (gw *parallelGateway, err error) {
 	gw = &parallelGateway{
-		wiring:                wr,
-		element:               element,
-		mch:                   make(chan imessage, len(wr.incoming)*2+1),
-		reportedIncomingFlows: 0,
-		awaitingActions:       make([]chan IAction, 0),
-		noOfIncomingFlows:     len(wr.incoming),
+		wiring:      wr,
+		element:     element,
+		mch:         make(chan imessage, len(wr.incoming)*2+1),
+		incomingIds: make([]string, len(wr.incoming)),
+		parked:      make(map[string][]chan IAction),
+	}
+	for i := range wr.incoming {
+		if idPtr, present := wr.incoming[i].Id(); present {
+			gw.incomingIds[i] = *idPtr
+		}
 	}
 
 	return
 }
 
-func (gw *parallelGateway) flowWhenReady(ctx context.Context) {
-	if gw.reportedIncomingFlows == gw.noOfIncomingFlows {
-		gw.reportedIncomingFlows = 0
-		awaitingActions := gw.awaitingActions
-		gw.awaitingActions = make([]chan IAction, 0)
-		sequences := allSequenceFlows(&gw.outgoing)
-		distributeFlows(ctx, awaitingActions, sequences)
+// park queues an arrived token behind the others that came over the same
+// incoming sequence flow
+func (gw *parallelGateway) park(flow Flow, response chan IAction) {
+	key := ""
+	if len(gw.incomingIds) > 0 {
+		key = gw.incomingIds[0]
 	}
+	if sequenceFlow := flow.SequenceFlow(); sequenceFlow != nil {
+		if idPtr, present := sequenceFlow.Id(); present {
+			key = *idPtr
+		}
+	}
+	gw.parked[key] = append(gw.parked[key], response)
+}
+
+// flowWhenReady releases one token per incoming sequence flow once a token
+// waits on each of them: tokens arriving repeatedly over one incoming
+// sequence flow do not stand in for the flows nothing has arrived on yet.
+func (gw *parallelGateway) flowWhenReady(ctx context.Context) {
+	for _, id := range gw.incomingIds {
+		if len(gw.parked[id]) == 0 {
+			return
+		}
+	}
+	awaitingActions := make([]chan IAction, 0, len(gw.incomingIds))
+	for _, id := range gw.incomingIds {
+		awaitingActions = append(awaitingActions, gw.parked[id][0])
+		gw.parked[id] = gw.parked[id][1:]
+	}
+	sequences := allSequenceFlows(&gw.outgoing)
+	distributeFlows(ctx, awaitingActions, sequences)
 }
 
 func (gw *parallelGateway) run(ctx context.Context, sender tracing.ISenderHandle) {
@@ -66,8 +95,7 @@ func (gw *parallelGateway) run(ctx context.Context, sender tracing.ISenderHandle
 		case msg := <-gw.mch:
 			switch m := msg.(type) {
 			case nextActionMessage:
-				gw.reportedIncomingFlows++
-				gw.awaitingActions = append(gw.awaitingActions, m.response)
+				gw.park(m.flow, m.response)
 				gw.flowWhenReady(ctx)
 				gw.tracer.Send(IncomingFlowProcessedTrace{Node: gw.element, Flow: m.flow})
 			}
